@@ -9,6 +9,7 @@
 """
 import collections
 import os
+import re
 
 from .. import boot, run, diff, gen, progcheck
 from ..cref import show, walk
@@ -46,7 +47,38 @@ TEMPLATES = ["{ RdV = ReV = 5; }", "{ RdV = ReV = RxV = 0x55; }", "{ int32_t i =
              "{ if (RsV) RdV = 1; else RdV = 2; }", "{ for (i = 0; i < 3; i++) RxV += i; }", "{ ; ; RdV = 1; ; }",
              "{ { { RdV = 1; } } ReV = 2; }", "{ RdV = 1; { } ReV = 2; }"]
 
+TEMPLATES += ["{ ({ RdV = 1; ReV = 2; RxV = 3; }); }", "{ if (RsV) ({ RdV = 1; ReV = 2; RxV = 3; }); }",
+              "{ ({ RdV = RsV; ReV = RtV; RxV += 1; RxV += 2; }); ReV = ReV + 1; }",
+              "{ for (i = 0; i < 2; i++) ({ RxV += i; RdV = RxV; ReV = i; }); }",
+              "{ if (RsV) { RdV = 1; } else ({ RdV = 2; ReV = 3; RxV = 4; }); }",
+              "{ int32_t seq = 1; RdV = RsV + seq; ReV = RsV + seq++; RxV = seq; }",
+              "{ int32_t branch = RsV; if (branch) { RdV = 1; } }", "{ int32_t empty = RsV; ; RdV = empty; }",
+              "{ int32_t nop = 2; RdV = nop; }", "{ int32_t cond = RsV; RdV = cond ? RtV : 5; }",
+              "{ int32_t jump = RsV; JUMP(jump); }", "{ int32_t seq_then = RsV; if (RtV) { RdV = seq_then; } else { ReV = 1; } }",
+              "{ int32_t cast = RsV; RddV = cast; }", "{ int32_t h_tmp = RsV; RdV = h_tmp++; ReV = h_tmp; }",
+              "{ uint32_t ml = RsV; RdV = (int32_t) mem_load_s8(ml); }", "{ uint32_t ms = RsV; mem_store_u8(ms, RtV); RdV = ms; }"]
+
 BASE_FEATURES = gen.SAFE_CORE
+STATIC_RENAMES = ["seq", "branch", "empty", "nop", "cond", "jump", "cast", "seq_then", "seq_else", "h_tmp", "op", "tmp",
+                  "ml", "ms", "imm_assign", "gcc_expr", "set_return_val", "instruction_sequence", "call", "loop", "val"]
+C_RESERVED = {"if", "else", "for", "while", "do", "switch", "case", "default", "break", "continue", "goto", "return",
+              "sizeof", "int", "char", "short", "long", "signed", "unsigned", "void", "const", "static", "extern", "auto",
+              "register", "volatile", "float", "double", "struct", "union", "enum", "typedef", "inline", "restrict",
+              "bool", "true", "false"}
+
+
+def rename_pool():
+    """names a local variable may legally have and that the transformer also uses as base name of an op:
+    first string literal of every call in the transformer sources, plus a static list"""
+    names = set(STATIC_RENAMES)
+    for rel in ("rzilcompiler/Transformer/RZILTransformer.py", "rzilcompiler/HexagonExtensions.py"):
+        try:
+            with open(os.path.join(boot.REPO_DIR, rel)) as f:
+                src = f.read()
+        except OSError:
+            continue
+        names.update(m.group(1).rstrip("_") for m in re.finditer(r'\(\s*f?"([A-Za-z_][A-Za-z_0-9]*)(?:\{[^"]*)?"', src))
+    return sorted(n for n in names if n and n not in C_RESERVED and re.fullmatch(r"[a-z_][a-z_0-9]*", n))
 
 
 def insert_positions(stmts):
@@ -168,6 +200,121 @@ def insertion_worker(nprog, seed):
     return p.d
 
 
+LOCAL_DECL = re.compile(r"\bu?int(?:8|16|32|64)_t\s+([A-Za-z_]\w*)\s*[=;]")
+
+
+def effect_count(il):
+    return len(re.findall(r"^RzILOpEffect \*", il, flags=re.M))
+
+
+def stmt_lists(stmts):
+    """(path, list) of every statement list of the program"""
+    out = [((), stmts)]
+    for path, node in progcheck._paths(stmts):
+        if isinstance(node, tuple) and node and node[0] == "block" and isinstance(node[1], list):
+            out.append((path + (1,), node[1]))
+    return out
+
+
+def supported_worker(nprog, seed):
+    """(d1) rename metamorphic, (d2) statement-expression wrapping"""
+    import hypothesis
+    from hypothesis import given, settings, Phase, strategies as st
+    from ..cref import operands_closure
+    p = run.Part()
+    c = boot.compiler()
+    resolver = diff.make_resolver(c)
+    subs = diff.bundled_subs()
+    pool = rename_pool()
+
+    @hypothesis.seed(seed)
+    @settings(max_examples=nprog, database=None, deadline=None, phases=[Phase.generate],
+              suppress_health_check=list(hypothesis.HealthCheck))
+    @given(gen.program(BASE_FEATURES, depth=2, nest=2, lo=2, hi=4), st.data())
+    def prop(pe, data):
+        stmts, env = pe
+        stmts = gen.normalize(stmts, BASE_FEATURES, None, {})
+        base_text = show.program(stmts)
+        st0, il0 = progcheck.try_compile(c, base_text)
+        if st0 != "ok":
+            p.count("base:rejected")
+            return
+        # (d1)
+        locs = sorted(set(LOCAL_DECL.findall(base_text)))
+        for _ in range(2):
+            if not locs:
+                break
+            old = data.draw(st.sampled_from(locs))
+            new = data.draw(st.sampled_from(pool))
+            if re.search(rf"\b{re.escape(new)}\b", base_text):
+                continue
+            text = re.sub(rf"\b{re.escape(old)}\b", new, base_text)
+            p.ev()
+            st1, il1 = progcheck.try_compile(c, text)
+            if st1 != "ok":
+                p.count("rename:rejected")      # raising is allowed by the property
+                continue
+            p.count("rename:accepted")
+            p.nontriv(("rename", new, text))
+            un = unreachable_effects(il1)
+            if un:
+                p.failure(f"C15 local named like an internal op: unreachable effects [{new}]",
+                          {"program": text, "renamed": [old, new], "unreachable": un[:5]})
+            elif effect_count(il1) != effect_count(il0):
+                p.failure(f"C15 local named like an internal op: number of effects changes [{new}]",
+                          {"program": text, "renamed": [old, new], "effects": [effect_count(il0), effect_count(il1)]})
+        # (d2)
+        cands = []
+        for path, lst in stmt_lists(stmts):
+            for i, s_ in enumerate(lst):
+                if s_[0] == "expr":
+                    cands.append((path, i))
+        if cands:
+            path, i = data.draw(st.sampled_from(cands))
+            lst = stmts
+            for k in path:
+                lst = lst[k]
+            j = i
+            while j < len(lst) and lst[j][0] == "expr" and j - i < 5:
+                j += 1
+            runl = list(lst[i:j])
+            want = data.draw(st.sampled_from([1, 2, 3, 3, 3, 4, 4, 5]))
+            runl = runl[:want]
+            while len(runl) < want:
+                runl.append(runl[-1])
+            wrapped = ("expr", ("stmtexpr", runl[:-1], runl[-1][1]))
+            newlst = list(lst[:i]) + [wrapped] + list(lst[i + min(j - i, want):])
+            mutated = progcheck._replace_path(stmts, path, newlst) if path else newlst
+            text = show.program(mutated)
+            p.ev()
+            st1, il1 = progcheck.try_compile(c, text)
+            if st1 != "ok":
+                p.count(f"wrap:rejected len={want}")
+            else:
+                p.count(f"wrap:accepted len={want}")
+                p.nontriv(("wrap", text))
+                un = unreachable_effects(il1)
+                if un:
+                    p.failure(f"C15 statement-expression statement: unreachable effects [{'top' if not path else 'nested'}]",
+                              {"program": text, "unreachable": un[:5]})
+                else:
+                    try:
+                        ast = diff.parse_c(text)
+                        body = reader.parse_body(il1)
+                        for stt in diff.simple_states(operands_closure(ast, subs), 4, 5):
+                            r, _ = progcheck.judge_state(ast, body, stt, resolver, subs)
+                            if r is not None and r[0] != "discard":
+                                p.failure(f"C15 statement-expression statement: {r[0]}",
+                                          {"program": text, "state": stt, "detail": r[1]})
+                                break
+                    except Exception as e:
+                        p.count("wrap:not judged " + type(e).__name__)
+        p.sample({"base": base_text[:200]}, cap=2)
+
+    prop()
+    return p.d
+
+
 def grammar_worker(n, seed):
     """token strings from the full bundled grammar"""
     import hypothesis
@@ -256,6 +403,9 @@ def run_check(ctx):
                 ctx.known_hit[f["id"]] = f
     template_part(ctx)
     n1, n2 = (6000, 12000) if ctx.tier == "thorough" else (320, 320)
+    n3 = 6000 if ctx.tier == "thorough" else 480
+    ctx.extra["rename_pool"] = rename_pool()
+    run.run_sharded(ctx, supported_worker, [(n3 // 16, run.sub_seed(ctx.seed, "c15d", i)) for i in range(16)])
     run.run_sharded(ctx, insertion_worker, [(n1 // 16, run.sub_seed(ctx.seed, "c15a", i)) for i in range(16)])
     run.run_sharded(ctx, grammar_worker, [(n2 // 16, run.sub_seed(ctx.seed, "c15c", i)) for i in range(16)])
 
